@@ -173,6 +173,9 @@ class SvStreamDataType(BaseDataType):
     def __repr__(self) -> str:
         return "SvStreamDataType(<lazy>)"
 
+    def __len__(self) -> int:
+        raise TypeError("a lazy stream has no length")
+
     def __str__(self) -> str:
         return "SvStreamDataType(<lazy>)"
 
@@ -212,6 +215,26 @@ class SvStreamSum(DataOperation):
         if w is not None and not w.quiet:
             w.log("stream.consumed", len(items))
         return FloatDataType(float(sum(items)) + 0.001 * len(items))
+
+
+class SvSubFloat(FloatDataType):
+    """A strict subclass of FloatDataType."""
+
+
+class SvNeedsSubFloat(DataOperation):
+    """Accepts only the subclass SvSubFloat (a plain FloatDataType is NOT acceptable)."""
+
+    @classmethod
+    def input_data_type(cls):
+        return SvSubFloat
+
+    @classmethod
+    def output_data_type(cls):
+        return FloatDataType
+
+    def _process_logic(self, data):
+        _invoke("SvNeedsSubFloat", {}, data)
+        return FloatDataType(data.data)
 
 
 class SvCtxWriterA(_FloatOp):
@@ -386,7 +409,7 @@ class SvBadCtxProc(ContextProcessor):
 
 LEAF_NAMES = [
     "SvSource", "SvSourceDefault", "SvPayloadSource", "SvAdd", "SvAddDefault", "SvMul",
-    "SvMulDefault", "SvAffine", "SvSlow", "SvCaseOp", "SvScaleInPlace", "SvToStream", "SvStreamSum", "SvCtxWriterA", "SvCtxWriterB", "SvBadWriter", "SvToText",
+    "SvMulDefault", "SvAffine", "SvSlow", "SvCaseOp", "SvScaleInPlace", "SvToStream", "SvStreamSum", "SvNeedsSubFloat", "SvCtxWriterA", "SvCtxWriterB", "SvBadWriter", "SvToText",
     "SvTextLen", "SvCollSum", "SvProbe", "SvProbeParam", "SvProbeDefault", "SvFileSink",
     "SvNullSink", "SvCtxCombine", "SvBadCtxProc",
 ]
